@@ -47,8 +47,13 @@ def rand_rot(rng, improper=False):
 
 def point_sets(rng):
     n = rng.randint(3, 50)
-    kind = rng.choice(["generic", "generic", "planar", "collinear", "mirror", "noise", "unrelated"])
+    kind = rng.choice(["generic", "generic", "planar", "collinear", "mirror", "noise", "unrelated", "integer"])
     A = np.array([[rng.uniform(-5, 5) for _ in range(3)] for _ in range(n)])
+    if kind == "integer":
+        # lattice points handed over as an INTEGER array; B is a rotated float copy
+        A = np.array([[rng.randint(-6, 6) for _ in range(3)] for _ in range(n)], dtype=int)
+        Q = rand_rot(rng)
+        return "generic", A, A.astype(float) @ Q, Q
     if kind == "planar":
         A[:, 2] = 0.0
         A = A @ rand_rot(rng)
@@ -175,6 +180,13 @@ def judge_dimer(seed):
     zs = [rng.choice([1, 6, 7, 8]) for _ in range(n)]
     P = np.array([[rng.uniform(-3, 3) for _ in range(3)] for _ in range(n)])
     Q = rand_rot(rng)
+    if rng.random() < 0.3:
+        # nearly the identity: a rotation by a few thousandths to hundredths of a degree is still a rotation
+        ax = np.array([rng.gauss(0, 1) for _ in range(3)])
+        ax /= np.linalg.norm(ax)
+        th = math.radians(rng.choice([0.003, 0.01, 0.02, 0.04, 0.1]))
+        K = np.array([[0, -ax[2], ax[1]], [ax[2], 0, -ax[0]], [-ax[1], ax[0], 0]])
+        Q = np.eye(3) + math.sin(th) * K + (1 - math.cos(th)) * K @ K
     shift = np.array([rng.uniform(4, 9), rng.uniform(-2, 2), rng.uniform(-2, 2)])
     a = Molecule([Element[z] for z in zs], P)
     b = Molecule([Element[z] for z in zs], P @ Q + shift)
